@@ -202,6 +202,8 @@ def fam_mixed_nodes(seed=0, n=12):
         for _ in range(ne):
             s, t = rnd.choice(srcs), rnd.choice(tgts)
             wk = rnd.random()
+            for _skip in range(len(edges)):
+                fp()          # weights must not form an arithmetic progression: sums of parallel weights stay distinct
             w = None if wk < 0.15 else (F(1) if wk < 0.3 else fp())
             edges.append(EdgeSpec(s, t, w))
         out.append((f"F2b:{seed}:{k}", ModelSpec('m', ops, nodes, edges, note="mixed node types, random edges")))
@@ -753,6 +755,19 @@ def fam_gamma_fixed():
                                                                   E('a1/li/x', 'a2/li/u', fp(), delay=F(1, 2), spread=F(1, 4)),
                                                                   E('a2/li/x', 'a0/li/u', fp())],
                                                       "a plain delayed edge and a gamma-kernel edge out of one vectorized source variable")))
+    def mk_src(edges_fn, note, n=2):
+        fp = FP()
+        ops = {'li': op_leaky(fp), 'src': op_source(fp)}
+        ops['li'].vars['u'] = ('input', F(0))
+        nodes = {'s0': NodeSpec(['src'], _node_overrides(fp, ops, ['src']))}
+        nodes.update({f"a{i}": NodeSpec(['li'], _node_overrides(fp, ops, ['li'])) for i in range(n)})
+        return ModelSpec('m', ops, nodes, edges_fn(fp), note=note)
+    out.append(("F11x:scalar-source-same-kernel", mk_src(lambda fp: [E('s0/src/s', 'a0/li/u', fp(), delay=F(1), spread=F(1, 2)),
+                                                                     E('s0/src/s', 'a1/li/u', fp(), delay=F(1), spread=F(1, 2))],
+                                                         "the only node of its type feeds two edges with one kernel")))
+    out.append(("F11x:scalar-source-two-kernels", mk_src(lambda fp: [E('s0/src/s', 'a0/li/u', fp(), delay=F(1), spread=F(1, 2)),
+                                                                     E('s0/src/s', 'a1/li/u', fp(), delay=F(1, 2), spread=F(1, 2))],
+                                                         "the only node of its type feeds two different kernels")))
     out.append(("F11x:identical-kernels", mk(lambda fp: [E('a0/li/x', 'a1/li/u', fp(), delay=F(1), spread=F(1, 2)),
                                                          E('a0/li/x', 'a2/li/u', fp(), delay=F(1), spread=F(1, 2)),
                                                          E('a1/li/x', 'a0/li/u', fp(), delay=F(1), spread=F(1, 2))],
